@@ -1051,6 +1051,10 @@ impl<'p> Evaluator<'_, 'p> {
     }
 }
 
+/// Largest precision passed to `format!` when rendering an `f64`. Every
+/// digit of a finite `f64` beyond this position is zero.
+const MAX_FLOAT_FMT_PREC: usize = 1100;
+
 fn render_float_def(
     value: f64,
     prec: usize,
@@ -1063,7 +1067,11 @@ fn render_float_def(
     let value_abs = value.abs();
     let is_neg = value.is_sign_negative() && value != 0.0;
 
-    let mut digits_str = format!("{value_abs:.prec$}");
+    // `format!` panics for precisions above `u16::MAX`. A finite `f64` has at
+    // most 1074 fractional digits, so the remaining ones are zeros.
+    let fmt_prec = prec.min(MAX_FLOAT_FMT_PREC);
+    let mut digits_str = format!("{value_abs:.fmt_prec$}");
+    digits_str.extend(std::iter::repeat_n('0', prec - fmt_prec));
     if prec == 0 && ensure_pt {
         digits_str.push('.');
     } else if prec != 0 && trim_zeros {
@@ -1090,10 +1098,15 @@ fn render_float_exp(
     let value_abs = value.abs();
     let is_neg = value.is_sign_negative() && value != 0.0;
 
-    let digits_str = format!("{value_abs:.prec$e}");
+    // `format!` panics for precisions above `u16::MAX`. A finite `f64` has at
+    // most 767 significant digits, so the remaining ones are zeros.
+    let fmt_prec = prec.min(MAX_FLOAT_FMT_PREC);
+    let mut extra_zeros = prec - fmt_prec;
+    let digits_str = format!("{value_abs:.fmt_prec$e}");
     let e_pos = digits_str.bytes().position(|chr| chr == b'e').unwrap();
     let mut mant_str = &digits_str[..e_pos];
     if prec != 0 && trim_zeros {
+        extra_zeros = 0;
         mant_str = mant_str.trim_end_matches('0');
         if !ensure_pt {
             mant_str = mant_str.strip_suffix('.').unwrap_or(mant_str);
@@ -1103,7 +1116,8 @@ fn render_float_exp(
     let exp_int = exp_str.parse::<i32>().unwrap();
     let dot = if prec == 0 && ensure_pt { "." } else { "" };
     let e_chr = if uppercase { 'E' } else { 'e' };
-    let digits_str = format!("{mant_str}{dot}{e_chr}{exp_int:+03}");
+    let extra_zeros = "0".repeat(extra_zeros);
+    let digits_str = format!("{mant_str}{extra_zeros}{dot}{e_chr}{exp_int:+03}");
 
     decorate_digits(&digits_str, is_neg, zero_pad, 0, plus, blank)
 }
